@@ -86,7 +86,7 @@ const wellFormed = "well-formed schemas (DESIGN 3.0.5): A1 built by the public c
 func init() {
 	register(&PropSpec{
 		ID: "C01",
-		Explanation: "R-SUPPLIEDNONNIL - Unserialize of a list / map schema never hands out a nil container for a supplied value (nil means 'not supplied' in a struct field); R-CODEC also requires duplicate map keys to be refused by the transport. Decided R-CODEC - the transport's CBOR modes are as wide as the schemas; R-DISCPRESENT / R-STOREALL - the typed discriminator is stored on every accepting Unserialize path, every way round the struct mapper stores the supplied value. (structural parts of the round trip): R-DELEG - for every type with typed entry points each pair (XType, X) is a delegation on the same receiver, or both " +
+		Explanation: "Decided: R-FITS - the struct mapper converts a validated number into the field's type only behind a check that consults OverflowInt / OverflowUint / OverflowFloat (a float32 field still rounds: not decided). R-SUPPLIEDNONNIL - Unserialize of a list / map schema never hands out a nil container for a supplied value (nil means 'not supplied' in a struct field); R-CODEC also requires duplicate map keys to be refused by the transport. Decided R-CODEC - the transport's CBOR modes are as wide as the schemas; R-DISCPRESENT / R-STOREALL - the typed discriminator is stored on every accepting Unserialize path, every way round the struct mapper stores the supplied value. (structural parts of the round trip): R-DELEG - for every type with typed entry points each pair (XType, X) is a delegation on the same receiver, or both " +
 			"members consult every constraint field on all accepting paths; R-BOUNDFORM - the typed and untyped paths test the same quantity against the same bound in the " +
 			"same inclusive form; R-DYNTYPE - the non-error result of every Serialize / SerializeType is, by interprocedural dynamic-type provenance, a wire type " +
 			"(int64, float64, string, bool, []any, map[any]any, map[string]any; results produced by reflection are listed, not decided); R-ASSERT - the unchecked " +
@@ -118,7 +118,7 @@ func init() {
 	})
 	register(&PropSpec{
 		ID: "C03",
-		Explanation: "Decided: R-SUPPLIEDNONNIL - the producer side of R-UNSETNIL (see C01). Decided: R-UNSETNIL - presence of struct-mapped properties: nil pointer / slice / map and the zero value of a disabled property are unset, unexported fields are refused; R-REBUILT - constructor-only fields are never used without a test for the unfilled case. R-OBJ - the presence-rule evaluator is reached on every accepting path of ObjectSchema Unserialize / Validate / Serialize (map-based and struct-mapped " +
+		Explanation: "Decided: R-JSONNUM - default values are not decoded into an untyped value without UseNumber; R-SUBOBJRULES - the value built for an unset sub-object is stored only where its presence rules hold. Decided: R-SUPPLIEDNONNIL - the producer side of R-UNSETNIL (see C01). Decided: R-UNSETNIL - presence of struct-mapped properties: nil pointer / slice / map and the zero value of a disabled property are unset, unexported fields are refused; R-REBUILT - constructor-only fields are never used without a test for the unfilled case. R-OBJ - the presence-rule evaluator is reached on every accepting path of ObjectSchema Unserialize / Validate / Serialize (map-based and struct-mapped " +
 			"branches); its set/unset dispatch, and the rejects for required, required_if, required_if_not and conflicts have the declared polarity; undeclared and non-string " +
 			"keys are rejected wherever supplied keys are walked; a value derived from GetDefaults() is stored only under a failed lookup of the same key (a supplied value is " +
 			"never overridden); a disabled property is never unserialized and the object code cannot bypass PropertySchema.Unserialize; the inline shorthand is guarded by " +
@@ -140,7 +140,7 @@ func init() {
 	})
 	register(&PropSpec{
 		ID: "C02",
-		Explanation: "Decided: R-MAPORDER (converted-key clause) - no insertion under a converted key without a duplicate test, so size bounds checked on the source hold for the result. Decided: R-CONVKIND - conversions of values in Validate / Serialize only between agreeing kinds, unsigned values above MaxInt64 excluded; R-FMTPREC - no float becomes a string value through a fixed-precision verb. R-MUSTUSE - every declared constraint (json min, max, pattern, values) is read on every accepting path of Unserialize, Validate, Serialize and the typed " +
+		Explanation: "Decided: R-SERVAL - a Serialize that asks its own Validate constructs no rejection that this Validate does not construct as well. Decided: R-MAPORDER (converted-key clause) - no insertion under a converted key without a duplicate test, so size bounds checked on the source hold for the result. Decided: R-CONVKIND - conversions of values in Validate / Serialize only between agreeing kinds, unsigned values above MaxInt64 excluded; R-FMTPREC - no float becomes a string value through a fixed-precision verb. R-MUSTUSE - every declared constraint (json min, max, pattern, values) is read on every accepting path of Unserialize, Validate, Serialize and the typed " +
 			"variants of every schema type (interprocedural must-analysis over callees on the same receiver); R-BOUNDFORM - each comparison with a bound is the inclusive form " +
 			"(reject iff q < min / q > max), its violating branch returns an error, the measured quantity is the value (numbers) or its length (sized kinds) and all " +
 			"comparisons of one type agree on it; float tests exclude NaN; R-NARROW - lossy conversions to int64 in the input mappers are range- or round-trip-guarded; " +
@@ -164,7 +164,7 @@ func init() {
 	})
 	register(&PropSpec{
 		ID: "C04",
-		Explanation: "Decided: R-KINDPRE - every kind-restricted method of reflect.Value (Len, Index, MapKeys, MapIndex, MapRange, SetMapIndex, NumField, Field*, Elem, IsNil, Int, Uint, Float, Bool) is called on a Value whose own kind is known to fit (provenance, a Kind() comparison on every path, the callers, the callee whose result it wraps), 6 exceptions E-OWNTYPE / E-PROBE; R-REFLECT (i) - Set / SetMapIndex with a dynamically typed value only behind AssignableTo, Convert or a recover; R-TERM exception E-DEFAULTGUARD - the values of the schema fed back into Unserialize (defaults, sub-object defaults) are examined by a bounded guard first. NOT decided: Go values that contain themselves (Validate / Serialize recurse with the value). Decided: R-REFLECT (g) - Elem() only of a pointer known not to be nil (through parameters and callers); (h) - Set on a struct field only under CanSet() or a recover scope; R-TERM - the sub-object-defaults descent is bounded by a visited path, the inline-shorthand chain by a guard method (exception E-CHAINGUARD). Decided: R-UNSETNIL (CanInterface clause) and R-REFLECT (e, f) - field access through the field cache does not walk through nil embedded pointers, values of unexported fields are not read, Convert to run-time types needs CanConvert. no reachable unguarded panic site of three classes in the functions reachable from Unserialize/Validate/Serialize/ValidateCompatibility " +
+		Explanation: "Decided: R-STABLEID - no accessor hands out a copy of an object where the original has an address (the walks that bound the recursion tell objects apart by address); R-TERM exception E-DEFAULTGUARD now requires the guard walk to share with Unserialize the function that works out the value of an unset property and the predicate of the single-property shorthand. Decided: R-KINDPRE - every kind-restricted method of reflect.Value (Len, Index, MapKeys, MapIndex, MapRange, SetMapIndex, NumField, Field*, Elem, IsNil, Int, Uint, Float, Bool) is called on a Value whose own kind is known to fit (provenance, a Kind() comparison on every path, the callers, the callee whose result it wraps), 6 exceptions E-OWNTYPE / E-PROBE; R-REFLECT (i) - Set / SetMapIndex with a dynamically typed value only behind AssignableTo, Convert or a recover; R-TERM exception E-DEFAULTGUARD - the values of the schema fed back into Unserialize (defaults, sub-object defaults) are examined by a bounded guard first. NOT decided: Go values that contain themselves (Validate / Serialize recurse with the value). Decided: R-REFLECT (g) - Elem() only of a pointer known not to be nil (through parameters and callers); (h) - Set on a struct field only under CanSet() or a recover scope; R-TERM - the sub-object-defaults descent is bounded by a visited path, the inline-shorthand chain by a guard method (exception E-CHAINGUARD). Decided: R-UNSETNIL (CanInterface clause) and R-REFLECT (e, f) - field access through the field cache does not walk through nil embedded pointers, values of unexported fields are not read, Convert to run-time types needs CanConvert. no reachable unguarded panic site of three classes in the functions reachable from Unserialize/Validate/Serialize/ValidateCompatibility " +
 			"(and typed variants) of all Serializable implementers, outside recover scopes - R-ASSERT: every single-value type assertion is justified by dynamic-type " +
 			"provenance, a validator summary, a TypeID gate, the meta-root argument, or a named structural exception class; R-NILGUARD: every dereference of a field or " +
 			"parameter that the repository itself compares with nil is dominated by a non-nil fact on the same access path (dominator facts + must-dataflow for lazy-init); " +
@@ -195,7 +195,7 @@ func init() {
 	})
 	register(&PropSpec{
 		ID: "C05",
-		Explanation: "Decided: R-DECODERX same-turn clause - a request whose reply is matched by position is written under the mutex held at the read. Decided: R-DECODERX - every Decode on the connection's decoder is exclusive; R-CODEC - CBOR modes as wide as the schemas; R-PAIR - a result that has arrived is never overwritten. R-LOCKSET - for every struct with a mutex (ATP client, ATP server session, callable step) the guarded fields are inferred (accessed under " +
+		Explanation: "Decided: R-SIGNONFATAL (also here) - nothing reported on behalf of a signal can be step-fatal, computed flags included: a signal cannot end the Execute of its step. Decided: R-DECODERX same-turn clause - a request whose reply is matched by position is written under the mutex held at the read. Decided: R-DECODERX - every Decode on the connection's decoder is exclusive; R-CODEC - CBOR modes as wide as the schemas; R-PAIR - a result that has arrived is never overwritten. R-LOCKSET - for every struct with a mutex (ATP client, ATP server session, callable step) the guarded fields are inferred (accessed under " +
 			"the mutex and mutable after construction; shared cbor encoders, the client's pending table, signal table and running flag are required to be guarded) and every " +
 			"access outside construction holds the mutex on all paths (must-lockset dataflow, helpers inherit the locks of all call sites, a goroutine started inside a " +
 			"critical section and joined before the unlock counts as inside). This is the structural part of 'never corrupted by interleaved writes / delivered to a different " +
@@ -203,6 +203,7 @@ func init() {
 		Assumptions: []string{"callers that obtain the raw codec through the exported Encoder()/Decoder() accessors are outside the premise",
 			"the 60 s send time-out arm of sendRuntimeMessage (transport stall) is outside the premise"},
 		Rules: []func(*Ctx){
+			func(c *Ctx) { c.ruleSignalNonFatal("R-SIGNONFATAL") },
 			func(c *Ctx) { c.ruleCodec("R-CODEC"); c.R.Floor("R-CODEC", 3) },
 			func(c *Ctx) { c.rulePair("R-PAIR") },
 			func(c *Ctx) { c.ruleDecoderExclusive("R-DECODERX"); c.R.Floor("R-DECODERX", 3) },
@@ -244,7 +245,7 @@ func init() {
 	})
 	register(&PropSpec{
 		ID: "C07",
-		Explanation: "Decided: R-DEFERUNLOCK - a mutex held across a call of a function kept in a field (the step's initializer) is released by a deferred unlock; R-LOCKSET - the guarded fields of the server session and of the callable step are touched under their mutex only. Decided: R-CHAN no-report-after-Done - nothing that can send on the error channel runs after a goroutine's Done (defer order included); R-SIGNONFATAL - no step-fatal report on behalf of a signal. Decided: R-PLUGINPANIC - no explicit panic in the plugin entry point. R-CHAN - no goroutine can send on the error channel after its close (close must be joined with all sending goroutines), the report loop only " +
+		Explanation: "Decided: R-CLOSEONCE - the session's input is closed by a function handed to sync.Once.Do only (a second Close was taken for a server failure and dropped the reports of the steps still running). Decided: R-DEFERUNLOCK - a mutex held across a call of a function kept in a field (the step's initializer) is released by a deferred unlock; R-LOCKSET - the guarded fields of the server session and of the callable step are touched under their mutex only. Decided: R-CHAN no-report-after-Done - nothing that can send on the error channel runs after a goroutine's Done (defer order included); R-SIGNONFATAL - no step-fatal report on behalf of a signal. Decided: R-PLUGINPANIC - no explicit panic in the plugin entry point. R-CHAN - no goroutine can send on the error channel after its close (close must be joined with all sending goroutines), the report loop only " +
 			"stops when the channel is closed or hands over to a deferred drain that keeps receiving until then, no report is sent non-blockingly, and the client's signal channels are closed/sent under one discipline; R-RECOVER - every " +
 			"goroutine that runs step code does so below a recover scope; R-EXACTLYONE - every path of the step runner, including the panic path through the recover handler, " +
 			"emits exactly one terminal message; R-WG for the server goroutines; R-MAPNIL - unknown step / signal IDs cannot be dereferenced (server side of C11). " +
@@ -332,7 +333,7 @@ func init() {
 	})
 	register(&PropSpec{
 		ID: "C10",
-		Explanation: "Decided: R-EXPLICIT checked-at-link discharge - a schema-state panic whose condition linking evaluates first (root object, defaults) cannot be the first thing a received description meets. Decided: R-EXPLICIT without the well-formedness assumptions - every explicit panic reachable from UnserializeSchema / UnserializeScope / ReadSchema or from the " +
+		Explanation: "Decided: R-STABLEID (see C04). Decided: R-EXPLICIT checked-at-link discharge - a schema-state panic whose condition linking evaluates first (root object, defaults) cannot be the first thing a received description meets. Decided: R-EXPLICIT without the well-formedness assumptions - every explicit panic reachable from UnserializeSchema / UnserializeScope / ReadSchema or from the " +
 			"data API is classified; a guard that depends only on schema state which a received description can produce is a violation (9 such sites, all on first use of an accepted description with a reference into a namespace nobody applies, are genuine, demonstrated " +
 			"defects recorded as known findings; the loaders themselves recover linking panics, each keyed separately so a new panic path is still reported); R-FORWARD - the loaders link every scope they return; " +
 			"R-ASSERT - the loaders' own type assertions are justified by the meta-root argument. Also decided: R-DIVZERO, R-MUSTCALL (no Must* constructor on run-time patterns), R-TERM (recursion through received references: the demonstrated stack overflows are repaired; the re-seeding of Unserialize with defaults is bounded by a guard, exception E-DEFAULTGUARD). NOT decided: semantic usability of an accepted description; panics from " +
@@ -384,7 +385,7 @@ func init() {
 	})
 	register(&PropSpec{
 		ID: "C15",
-		Explanation: "Decided: R-REFLEX - no schema-mode rejection whose path condition consists of flags only (bool fields and getters of the two schemas, optional fields set or not) is consistent once the producer is read as the consumer: no such schema is refused as its own producer; R-DISABLED - a producer that declares a property but has it disabled does not supply it, and no accepting return goes round the loop over the consumer's required properties; R-TERM schema mode - the comparison carries the set of object pairs it has entered (visited-pairs discharge). R-MUSTUSE cross-kind clause - a bounded kind accepts a producer of another kind only after a look at its own bounds; R-DISABLED (schema mode) - a disabled property does not accept a producer that requires it. Decided for the schema-mode code of every ValidateCompatibility: R-KINDGATE - every `return nil` is dominated by a gate that separates the receiver's kind " +
+		Explanation: "Decided: R-STABLEID (see C04); R-OVERLAP also over a helper that is handed the four bounds, with its callers refusing on its answer. Decided: R-REFLEX - no schema-mode rejection whose path condition consists of flags only (bool fields and getters of the two schemas, optional fields set or not) is consistent once the producer is read as the consumer: no such schema is refused as its own producer; R-DISABLED - a producer that declares a property but has it disabled does not supply it, and no accepting return goes round the loop over the consumer's required properties; R-TERM schema mode - the comparison carries the set of object pairs it has entered (visited-pairs discharge). R-MUSTUSE cross-kind clause - a bounded kind accepts a producer of another kind only after a look at its own bounds; R-DISABLED (schema mode) - a disabled property does not accept a producer that requires it. Decided for the schema-mode code of every ValidateCompatibility: R-KINDGATE - every `return nil` is dominated by a gate that separates the receiver's kind " +
 			"from all others (TypeID comparison, assertion to a concrete schema type, kind whitelist, conversion helper, or a reflective field probe whose embedders all report " +
 			"one TypeID) or lies in data mode; R-OVERLAP - the range comparisons are in normal form (reject iff other.min > self.max or other.max < self.min) and, by " +
 			"enumeration of all acyclic paths from the point where both schemas' bounds are available, every accepting path has decided both bound pairs (nil bound or " +
@@ -419,7 +420,7 @@ func init() {
 	})
 	register(&PropSpec{
 		ID: "C16",
-		Explanation: "Decided: R-SIBLING - in each of the four UnitsDefinition.Format* functions the amount handed to the per-unit formatter inside the multiplier loop is the " +
+		Explanation: "Decided: R-FMTPREC, units clause - a printed float amount carries all its digits (no %f, no fixed precision); R-TRIM accepts the shortest rendering; R-SIBLING sees through the count helper. Decided: R-SIBLING - in each of the four UnitsDefinition.Format* functions the amount handed to the per-unit formatter inside the multiplier loop is the " +
 			"math.Floor quotient, never the loop-carried remainder; R-TRIM - digits are trimmed only from renderings known to contain a decimal point, with a cutset that does " +
 			"not also contain the point; R-GRAMMAR - the parser's regexp templates (verbs replaced by quoted-literal placeholders, parsed with regexp/syntax) contain no " +
 			"any-character operator, every named count group needs at least one digit and matches only digits and a literal point, interpolated names are QuoteMeta'd; " +
@@ -513,7 +514,7 @@ func init() {
 	})
 	register(&PropSpec{
 		ID: "C13",
-		Explanation: "Decided: a data race needs an unsynchronised write to shared memory. R-EFFECT (same origin analysis as C12, entry set extended with step/signal calls and the " +
+		Explanation: "Decided: R-DEFERUNLOCK, schema clause - a critical section of package schema that makes a call is released by a deferred unlock (a panic inside, caught by the server, must not leave a schema locked for ever). Decided: a data race needs an unsynchronised write to shared memory. R-EFFECT (same origin analysis as C12, entry set extended with step/signal calls and the " +
 			"unit definitions) - every write reachable from concurrently callable API goes to memory allocated during the call, or happens while a mutex field of the same " +
 			"receiver is held; lazy cache fills are NOT excused here; R-LOCKSET/R-ATOMIC for the step-data table. The schema package uses no atomics and no channels, so " +
 			"mutexes are the only synchronisation to recognise. The receiver-mutex discharge never applies to package-level memory; R-STEPDATA - step-data table discipline. NOT decided: races inside third-party packages; result equality with a sequential run.",
